@@ -905,10 +905,6 @@ void lp_polynomial_psc(lp_polynomial_t** psc, const lp_polynomial_t* A, const lp
     lp_variable_order_print(A->ctx->var_order, A->ctx->var_db, trace_out); tracef("\n");
   }
 
-  assert(A->data.type == COEFFICIENT_POLYNOMIAL);
-  assert(B->data.type == COEFFICIENT_POLYNOMIAL);
-  assert(VAR(&A->data) == VAR(&B->data));
-
   size_t A_deg = lp_polynomial_degree(A);
   size_t B_deg = lp_polynomial_degree(B);
 
@@ -927,6 +923,10 @@ void lp_polynomial_psc(lp_polynomial_t** psc, const lp_polynomial_t* A, const lp
 
   lp_polynomial_external_clean(A);
   lp_polynomial_external_clean(B);
+  // (checked after the operands have been brought into the current order)
+  assert(A->data.type == COEFFICIENT_POLYNOMIAL);
+  assert(B->data.type == COEFFICIENT_POLYNOMIAL);
+  assert(VAR(&A->data) == VAR(&B->data));
 
   // Allocate the space for the result
   size_t size = B_deg + 1;
@@ -971,10 +971,6 @@ void lp_polynomial_subres(lp_polynomial_t** subres, const lp_polynomial_t* A, co
     lp_variable_order_print(A->ctx->var_order, A->ctx->var_db, trace_out); tracef("\n");
   }
 
-  assert(A->data.type == COEFFICIENT_POLYNOMIAL);
-  assert(B->data.type == COEFFICIENT_POLYNOMIAL);
-  assert(VAR(&A->data) == VAR(&B->data));
-
   size_t A_deg = lp_polynomial_degree(A);
   size_t B_deg = lp_polynomial_degree(B);
 
@@ -993,6 +989,10 @@ void lp_polynomial_subres(lp_polynomial_t** subres, const lp_polynomial_t* A, co
 
   lp_polynomial_external_clean(A);
   lp_polynomial_external_clean(B);
+  // (checked after the operands have been brought into the current order)
+  assert(A->data.type == COEFFICIENT_POLYNOMIAL);
+  assert(B->data.type == COEFFICIENT_POLYNOMIAL);
+  assert(VAR(&A->data) == VAR(&B->data));
 
   // Allocate the space for the result
   size_t size = B_deg + 1;
@@ -1030,15 +1030,15 @@ lp_polynomial_vector_t* lp_polynomial_mgcd(const lp_polynomial_t* A, const lp_po
     tracef("polynomial_mgcd("); lp_polynomial_print(A, trace_out); tracef(", "); lp_polynomial_print(B, trace_out); tracef(")\n");
   }
 
-  assert(A->data.type == COEFFICIENT_POLYNOMIAL);
-  assert(B->data.type == COEFFICIENT_POLYNOMIAL);
-  assert(VAR(&A->data) == VAR(&B->data));
-
   const lp_polynomial_context_t* ctx = A->ctx;
   assert(lp_polynomial_context_equal(B->ctx, ctx));
 
   lp_polynomial_external_clean(A);
   lp_polynomial_external_clean(B);
+  // (checked after the operands have been brought into the current order)
+  assert(A->data.type == COEFFICIENT_POLYNOMIAL);
+  assert(B->data.type == COEFFICIENT_POLYNOMIAL);
+  assert(VAR(&A->data) == VAR(&B->data));
 
   // Compute it
   return coefficient_mgcd(ctx, &A->data, &B->data, m);
@@ -1050,10 +1050,6 @@ void lp_polynomial_resultant(lp_polynomial_t* res, const lp_polynomial_t* A, con
     tracef("polynomial_resultant("); lp_polynomial_print(A, trace_out); tracef(", "); lp_polynomial_print(B, trace_out); tracef(")\n");
   }
 
-  assert(A->data.type == COEFFICIENT_POLYNOMIAL);
-  assert(B->data.type == COEFFICIENT_POLYNOMIAL);
-  assert(VAR(&A->data) == VAR(&B->data));
-
   const lp_polynomial_context_t* ctx = A->ctx;
   assert(lp_polynomial_context_equal(B->ctx, ctx));
 
@@ -1064,6 +1060,10 @@ void lp_polynomial_resultant(lp_polynomial_t* res, const lp_polynomial_t* A, con
 
   lp_polynomial_external_clean(A);
   lp_polynomial_external_clean(B);
+  // (checked after the operands have been brought into the current order)
+  assert(A->data.type == COEFFICIENT_POLYNOMIAL);
+  assert(B->data.type == COEFFICIENT_POLYNOMIAL);
+  assert(VAR(&A->data) == VAR(&B->data));
 
   // Compute
   coefficient_resultant(ctx, &res->data, &A->data, &B->data);
